@@ -74,8 +74,8 @@ type Exec struct {
 	Points    []PointInfo
 	Choices   []int
 	Trace     []string // when KeepTrace: one entry per scheduling point (who was where, who ran next)
-	Quiescent bool // ended with every harness thread finished and all service threads blocked
-	Leaked    bool // some aborted thread did not unwind (blocked for real in a deferred function)
+	Quiescent bool     // ended with every harness thread finished and all service threads blocked
+	Leaked    bool     // some aborted thread did not unwind (blocked for real in a deferred function)
 	Deadlock  bool
 	Panic     string
 	Blocked   []string
@@ -398,6 +398,72 @@ func GoStmt(label string, fn func()) {
 	}
 }
 
+// --- worker pools -------------------------------------------------------------------------------
+// Code under test that hands work to a goroutine pool of a library (sourcegraph/conc) would run that
+// work on goroutines the scheduler does not own. The overlay can redirect `x.<pool>.Go(f)` and
+// `x.<pool>.Wait()` of a named field to PoolGo / PoolWait: during an exploration the work item becomes a
+// scheduled thread (so "the batch is serialised later" is an explorable interleaving) and Wait blocks
+// cooperatively until the items spawned through this pool have finished.
+
+type poolLike interface {
+	Go(func())
+	Wait()
+}
+
+type poolState struct {
+	pool    any
+	pending int
+}
+
+var pools []*poolState
+
+//go:norace
+func poolOf(p any) *poolState {
+	for _, ps := range pools {
+		if ps.pool == p {
+			return ps
+		}
+	}
+	ps := &poolState{pool: p}
+	pools = append(pools, ps)
+	return ps
+}
+
+//go:norace
+func (ps *poolState) idle() bool { return ps.pending == 0 }
+
+//go:norace
+func (ps *poolState) add(n int) { ps.pending += n }
+
+// PoolGo is what the overlay turns `x.pool.Go(f)` into.
+//
+//go:norace
+func PoolGo(p poolLike, f func()) {
+	s := cur
+	if !s.mine() {
+		p.Go(f)
+		return
+	}
+	ps := poolOf(p)
+	ps.add(1)
+	Go("pool-work", func() {
+		defer ps.add(-1)
+		f()
+	})
+}
+
+// PoolWait is what the overlay turns `x.pool.Wait()` into.
+//
+//go:norace
+func PoolWait(p poolLike) {
+	s := cur
+	if s.mine() {
+		Point("pool.Wait")
+		BlockUntil("pool.Wait", poolOf(p).idle)
+	}
+	p.Wait()
+}
+
 // Go spawns fn as a scheduled thread when an exploration is active (callable from setup code before
 // Start, or from a running thread); otherwise it is a plain goroutine.
 //
@@ -468,6 +534,7 @@ func (s *sched) threadExit(t *thread) {
 func Run(prefix []int, setup func()) *Exec {
 	s := &sched{baton: -1, prefix: prefix, exec: &Exec{}, maxPts: 200000}
 	cur = s
+	pools = pools[:0]
 	for _, h := range OnRunStart {
 		h()
 	}
